@@ -20,7 +20,7 @@
 #define MAXT 64
 #define MAXR 64
 #define MAXRHS 16
-#define MAXW 4096
+#define MAXW (1 << 17)
 #define MAXEXP 4096
 
 /* ---------------- options ---------------- */
@@ -270,10 +270,19 @@ static int w_cycle, w_alt_under_alt, w_nil, w_err, w_alt, w_term, w_anode, w_dea
 static struct yaep_tree_node *w_nilp, *w_errp;
 static int w_costflag, w_cap, w_check_live;
 
+#define NDH (1 << 20)
+static int ndh[NDH];		/* pointer -> index + 1, open addressing */
+static unsigned ndg[NDH], nd_gen = 1;	/* entry valid iff its generation is the current one */
 static int nd_get (struct yaep_tree_node *p)
 {
-  int i;
-  for (i = 0; i < nnds; i++) if (nds[i].p == p) return i;
+  size_t h = ((size_t) p >> 4) * 2654435761u % NDH;
+  while (ndg[h] == nd_gen)
+    {
+      if (nds[ndh[h] - 1].p == p) return ndh[h] - 1;
+      h = (h + 1) % NDH;
+    }
+  ndg[h] = nd_gen;
+  ndh[h] = nnds + 1;
   if (nnds == capnds) { capnds = capnds ? capnds * 2 : 256; nds = (struct nd *) __real_realloc (nds, sizeof (struct nd) * capnds); }
   nds[nnds].p = p; nds[nnds].state = 0; nds[nnds].set = NULL; nds[nnds].nset = 0; nds[nnds].over = 0;
   return nnds++;
@@ -282,12 +291,14 @@ static void nds_reset (void)
 {
   int i, j;
   for (i = 0; i < nnds; i++) { for (j = 0; j < nds[i].nset; j++) __real_free (nds[i].set[j]); __real_free (nds[i].set); }
+  nd_gen++;
   nnds = 0;
 }
 static int cmpstr (const void *a, const void *b) { return strcmp (*(char *const *) a, *(char *const *) b); }
 static void set_add (struct nd *n, char *s)	/* takes ownership */
 {
   int i;
+  if (w_cap == 0) { __real_free (s); return; }	/* structure-only walk for long inputs */
   for (i = 0; i < n->nset; i++) if (strcmp (n->set[i], s) == 0) { __real_free (s); return; }
   if (n->nset >= w_cap) { n->over = 1; __real_free (s); return; }
   n->set = (char **) __real_realloc (n->set, sizeof (char *) * (n->nset + 1));
@@ -331,6 +342,7 @@ static void build_anode_set (int idx)
     }
   own = w_costflag ? p->val.anode.cost - sum : p->val.anode.cost;
   snprintf (head, sizeof head, "%.200s/%d(", p->val.anode.name ? p->val.anode.name : "?", own);
+  if (w_cap == 0) return;
   for (k = 0; k < nk; k++) { if (nds[kid[k]].nset == 0) return; if (nds[kid[k]].over) nds[idx].over = 1; choice[k] = 0; }
   for (;;)
     {
@@ -423,6 +435,45 @@ static char *join_set (char **set, int n)
   for (i = 0; i < n; i++) { if (i) sb_add (&b, " | "); sb_add (&b, set[i]); }
   return b.s;
 }
+
+/* structural serialisation of a (DAG) result, node identities numbered in visiting order */
+static struct yaep_tree_node **ser_seen; static int ser_cap;
+static int ser_n;
+static void ser (struct sb *b, struct yaep_tree_node *p, int *nterm)
+{
+  char buf[96];
+  int i;
+  if (p == NULL) { sb_add (b, "NULL"); return; }
+  for (i = 0; i < ser_n; i++) if (ser_seen[i] == p) { sprintf (buf, "#%d", i); sb_add (b, buf); return; }
+  if (ser_n == ser_cap) { ser_cap = ser_cap ? ser_cap * 2 : 4096; ser_seen = (struct yaep_tree_node **) __real_realloc (ser_seen, sizeof (void *) * ser_cap); }
+  ser_seen[ser_n++] = p;
+  switch (p->type)
+    {
+    case YAEP_NIL: sb_add (b, "-"); break;
+    case YAEP_ERROR: sb_add (b, "!"); break;
+    case YAEP_TERM: sprintf (buf, "t%d@%ld", p->val.term.code, (long) ((char *) p->val.term.attr - tags)); sb_add (b, buf); (*nterm)++; break;
+    case YAEP_ANODE:
+      sb_add (b, p->val.anode.name); sprintf (buf, "/%d(", p->val.anode.cost); sb_add (b, buf);
+      for (i = 0; p->val.anode.children[i] != NULL; i++) { if (i) sb_add (b, " "); ser (b, p->val.anode.children[i], nterm); }
+      sb_add (b, ")");
+      break;
+    case YAEP_ALT:
+      sb_add (b, "{"); ser (b, p->val.alt.node, nterm); sb_add (b, "|"); ser (b, p->val.alt.next, nterm); sb_add (b, "}");
+      break;
+    default: sb_add (b, "?BADTYPE");
+    }
+}
+static char *serialise (struct yaep_tree_node *root, int *nterm)
+{
+  struct sb b;
+  sb_init (&b);
+  ser_n = 0; *nterm = 0;
+  ser (&b, root, nterm);
+  return b.s;
+}
+
+
+static unsigned long fnv (const char *s) { unsigned long h = 1469598103934665603UL; for (; *s; s++) { h ^= (unsigned char) *s; h *= 1099511628211UL; } return h; }
 
 /* ---------------- hook sink ---------------- */
 #ifdef YAEP_VERIF
@@ -582,9 +633,10 @@ static void do_parse (int la, int one, int cost, int rec, int match, int dbg, in
       w_cycle = w_alt_under_alt = w_nil = w_err = w_alt = w_term = w_anode = w_dead = w_costbad = w_badattr = w_nullchild = 0;
       w_nilp = w_errp = NULL;
       w_costflag = cost;
-      w_check_live = (mem == 0 || mem == 2);
+      w_check_live = (mem == 0 || mem == 2) && ntoks <= 300;
       w_cap = (x_have_trees && x_sent == 1 ? n_exp : x_have_repairs ? n_exp_r : 0) + 1;
       if (w_cap < 8) w_cap = 8;
+      if (ntoks > 300) w_cap = 0;
       ridx = walk (root);
       if (w_cycle) mismatch_i ("tree has a cycle", w_cycle, 0);
       if (w_alt_under_alt) mismatch_i ("ALT node as alternative of an ALT node", w_alt_under_alt, 0);
@@ -642,8 +694,13 @@ static void do_parse (int la, int one, int cost, int rec, int match, int dbg, in
       printf ("{\"k\":\"parse\",\"lang\":\"%s\",\"g\":", YV_LANG); json_str (stdout, gid);
       printf (",\"w\":"); json_str (stdout, wid);
       printf (",\"toks\":[");
-      for (i = 0; i < ntoks; i++) printf ("%s%d", i ? "," : "", toks_in[i]);
-      printf ("],\"la\":%d,\"one\":%d,\"cost\":%d,\"rec\":%d,\"match\":%d,\"rc\":%d,\"root\":%d,\"amb\":%d,\"mp1\":%d,\"mp2\":%d,\"calls\":[", la, one, cost, rec, match, rc, root != NULL, amb != 0, mp1, mp2);
+      if (ntoks <= 64) for (i = 0; i < ntoks; i++) printf ("%s%d", i ? "," : "", toks_in[i]);
+      {
+	int nt0 = 0; char *sr = root != NULL && root != (struct yaep_tree_node *) 0x1 ? serialise (root, &nt0) : yv_strdup ("");
+	printf ("],\"n\":%d,\"dbg\":%d,\"thash\":\"%lx\",\"nterm\":%d", ntoks, dbg, fnv (sr), nt0);
+	__real_free (sr);
+      }
+      printf (",\"la\":%d,\"one\":%d,\"cost\":%d,\"rec\":%d,\"match\":%d,\"rc\":%d,\"root\":%d,\"amb\":%d,\"mp1\":%d,\"mp2\":%d,\"calls\":[", la, one, cost, rec, match, rc, root != NULL, amb != 0, mp1, mp2);
       for (i = 0; i < ncalls && i < MAXW; i++) printf ("%s[%d,%d,%d]", i ? "," : "", calls[i].err, calls[i].ign, calls[i].rec);
       printf ("],\"trees\":[");
       if (ridx >= 0) for (i = 0; i < nds[ridx].nset; i++) { if (i) printf (","); json_str (stdout, nds[ridx].set[i]); }
